@@ -40,6 +40,15 @@ def harnesses(tier, seed):
                           cfg=core.Cfg(qtimeout_ms=20000, uflin=True), functions=['controller.Controller.calculate_ratio', 'util.model_value'],
                           bounds="n=%d, m=1, one sample; model gradient / Hessian / step / trial residual symbolic; regulariser family lam*sum|x_i-c_i|" % n,
                           assumptions=["products, quotients: uninterpreted with sign axioms (counterexamples re-checked exactly and replayed)"], home='C04', nproc=1, max_replays=2))
+    # the comparison 'saved point vs incumbent' is made on stored objective values: they must be F(record) - also with a regulariser under
+    # internal scaling - or the better of the two is dropped (C17's save_point / get_final_results harnesses)
+    from . import c17
+    for h in c17.model_harnesses('quick', seed):
+        if h.params['op'] in ('save_point_abs', 'save_point_rel', 'get_final_results') and h.params['npt_so_far'] == h.params['num_pts'] and \
+                (h.params.get('scaling') or not h.params['with_h']):
+            h.home = 'C04'
+            h.name = 'model:' + h.name
+            hs.append(h)
     return hs + step.step_harnesses(tier, seed, 'C04') + step.action_harnesses(tier, seed, 'C04') + outer.outer_harnesses(tier, seed, 'C04') + runstart.start_harnesses(tier, seed, 'C04')
 
 
